@@ -25,7 +25,7 @@ type Profile struct {
 	GatedProb  int
 	Outs       []int // allowed outcomes
 	MaxBatch   int
-	BurstProb  int // percent of "addmany" being a large burst across segment boundaries
+	BurstProb  int // permille of "addmany" ops being a large burst across segment boundaries
 	Prios      []int
 	FinalStop  bool
 	StartPausedProb int
@@ -183,7 +183,7 @@ func (g *genState) op(kind string) (Op, bool) {
 		n := rapid.IntRange(0, max).Draw(t, "batch")
 		if kind == "addmany" {
 			n = rapid.IntRange(2, max+2).Draw(t, "many")
-			if pct(t, "burst", g.pf.BurstProb) {
+			if g.pf.BurstProb > 0 && rapid.IntRange(0, 999).Draw(t, "burst") < g.pf.BurstProb {
 				n = pick(t, "burstn", []int{1023, 1024, 1025, 1030, 2559, 2560, 2561, 2570})
 			}
 		}
